@@ -23,7 +23,7 @@ SESSION_PROPS = ["C09", "C12", "C14", "C15", "C17", "C19"]
 NEEDS_SOLO = {"C14", "C09"}
 
 BUDGET = {  # number of scenarios per tier
-    "quick": {"C12": 110, "C14": 70, "C15": 90, "C17": 120, "C19": 100, "C09": 100},
+    "quick": {"C12": 220, "C14": 140, "C15": 150, "C17": 240, "C19": 200, "C09": 250},
     "thorough": {"C12": 5000, "C14": 3000, "C15": 3500, "C17": 4000, "C19": 3500, "C09": 4000},
 }
 WALL = {"quick": 150.0, "thorough": 1500.0}
